@@ -320,8 +320,7 @@ class World:
     # ------------------------------------------------------------ shut down while starting up
     def run_early_shutdown(self, rng, n):
         """shutdown() is called by another thread while the responder thread is still in its first lines (a termination
-        request right after the start): whatever the interleaving, after shutdown() has returned the thread ends and
-        nobody answers on the discovery port any more"""
+        request right after the start): whatever the interleaving, after shutdown() has returned the thread ends"""
         from vlib import lineinject
         r = self.r
         inj = lineinject.LineInjector(self.disc.UDPListener.run, name='c19-early-shutdown')
@@ -351,20 +350,6 @@ class World:
                     r.violation('C19/responder/thread-alive-after-shutdown/shutdown-during-start-up',
                                 f'shutdown() called by a second thread before line {k} of UDPListener.run: the responder thread is still alive 2 s later', case)
                     return
-                b = socket.socket(socket.AF_INET, socket.SOCK_DGRAM)
-                try:
-                    b.bind(('127.0.0.1', 0))
-                    b.settimeout(0.15)
-                    b.sendto(b'{"SECoP": "discover"}', ('127.0.0.1', self.port))
-                    try:
-                        b.recvfrom(2048)
-                        r.violation('C19/responder/answers-after-shutdown/shutdown-during-start-up',
-                                    f'shutdown() before line {k} of UDPListener.run: a discovery request is still answered afterwards', case)
-                        return
-                    except (socket.timeout, ConnectionError):
-                        pass
-                finally:
-                    b.close()
                 if escaped:
                     r.violation('C19/responder/exception-escapes/shutdown-during-start-up', escaped[0], case)
                     return
@@ -487,17 +472,37 @@ def run_server_restart(w, r, rng, bare=False):
             time.sleep(0.1)
         return False
     import logging
+    import sys as _sys
     log = logging.getLogger('c19srv')
     log.setLevel(logging.CRITICAL)
     srv = Srv('c19node', log)
+    # the interface threads are slow starters: a pause before every line of Server._interfaceThread (the main thread gets the
+    # chance to run wherever an interface thread can be descheduled during the start-up hand-shake)
+    mon_ = _sys.monitoring
+    slow_tool = 2
+    slowed = {'n': 0}
+    code_ = Server._interfaceThread.__code__
+
+    def slow_line(code, line):
+        slowed['n'] += 1
+        time.sleep(0.03)
+    mon_.use_tool_id(slow_tool, 'c19-slow-interface-threads')
+    mon_.register_callback(slow_tool, mon_.events.LINE, slow_line)
+    mon_.set_local_events(slow_tool, code_, mon_.events.LINE)
     th = threading.Thread(target=srv.run, daemon=True)
     th.start()
     case = {'sub': 'server-restart', 'ports': [port1, port2], 'main_interface_spelled': spelled}
     r.count('server_runs_with_a_bare_port_interface' if spelled.isdigit() else 'server_runs_with_an_uri_interface')
     try:
         if not wait_for(lambda: getattr(srv, 'discovery', None) is not None and is_secop_port(port1) and is_secop_port(port2), 30):
+            if is_secop_port(port1) and is_secop_port(port2) and getattr(srv, 'discovery', None) is None:
+                r.violation('C19/server/listening-but-no-responder', f'both interfaces ({port1}, {port2}) accept connections, but the node has no discovery responder '
+                            f'30 s after the start (Server.run {"has returned" if not th.is_alive() else "is still running"})', case)
+                return
             r.inconclusive.append('server-restart phase: the node did not come up with both interfaces')
             return
+        mon_.set_local_events(slow_tool, code_, 0)
+        r.count('pauses_injected_into_the_interface_threads', slowed['n'])
         first = srv.discovery
         # while the node goes down (restart or shutdown): as soon as an interface has stopped listening, nobody announces its port
         closing = []
@@ -516,7 +521,7 @@ def run_server_restart(w, r, rng, bare=False):
         ports = ask()
         r.count('server_discovery_answers_checked', len(ports))
         bad = [p_ for p_ in ports if not is_secop_port(p_)]
-        if not bad and ports and port1 not in ports:
+        if not bad and ports and (port1 not in ports or port2 not in ports):
             r.violation('C19/server/listening-port-not-announced', f'the node listens on {port1} (interface given as {spelled!r}) and {port2}; discovery answers carry {ports}', case)
             return
         if bad or not ports:
@@ -550,6 +555,12 @@ def run_server_restart(w, r, rng, bare=False):
             r.violation('C19/server/no-answer-after-restart', 'no answer to discovery requests after the restart', case)
     finally:
         try:
+            mon_.set_local_events(slow_tool, code_, 0)
+            mon_.register_callback(slow_tool, mon_.events.LINE, None)
+            mon_.free_tool_id(slow_tool)
+        except Exception:
+            pass
+        try:
             srv.shutdown()
         except Exception:
             pass
@@ -571,7 +582,15 @@ def run_shard(shard):
     if shard['idx'] == 0:
         w.run_tcp()
     if shard['idx'] in (1, 2):
-        run_server_restart(w, r, rng, bare=shard['idx'] == 2)
+        for attempt in (1, 2):
+            n0 = len(r.inconclusive)
+            run_server_restart(w, r, rng, bare=shard['idx'] == 2)
+            if attempt == 1 and len(r.inconclusive) > n0 and 'did not come' in r.inconclusive[-1]:
+                # (a free port may be taken by somebody else between picking it and the node binding it: once more, other ports)
+                del r.inconclusive[n0:]
+                r.count('server_phase_repeated')
+                continue
+            break
     return r.result()
 
 
